@@ -4,6 +4,7 @@ import ast
 from sa import cfg as cfgmod
 from sa import consume
 from sa import model
+from sa import norm
 from sa import universe as unimod
 from sa.model import AnalysisError
 
@@ -596,6 +597,46 @@ def check_r08g(repo, rep):
            'before returning it', loc=ut.loc(lim.node))
 
 
+def check_quota_measures_everything(repo, rep):
+    """R08h: utils.limit_memory_usage measures every sample it is given:
+    inside its loop over the samples neither the size estimate nor the
+    quota comparison is skipped for some kinds of value."""
+    ut = repo.module(UT)
+    fi = ut.func('limit_memory_usage')
+    loops = [n for n in model.walk_shallow(fi.node)
+             if isinstance(n, (ast.For, ast.While))]
+    sized = [c for c in model.calls_in(fi.node) if model.norm(
+        c.func) in ('sys.getsizeof', 'getsizeof')]
+    ok = bool(loops) and bool(sized)
+    why = 'no loop over the samples with a sys.getsizeof estimate'
+    for c in sized:
+        lp = model.enclosing(c, (ast.For, ast.While))
+        if lp is None:
+            continue
+        inner = norm.guards(c, lp)
+        if inner:
+            ok = False
+            why = 'the size estimate is skipped unless `%s`%s' % (
+                model.norm(inner[0][0]), '' if inner[0][1] else
+                ' is false')
+    raises = [r for r in model.walk_shallow(fi.node)
+              if isinstance(r, ast.Raise)]
+    for r in raises:
+        lp = model.enclosing(r, (ast.For, ast.While))
+        if lp is None:
+            continue
+        inner = [g for g in norm.guards(r, lp)]
+        if len(inner) != 1 or not isinstance(inner[0][0], ast.Compare):
+            ok = False
+            why = 'the quota error depends on more than the comparison ' \
+                  'with the quota (%s)' % '; '.join(
+                      model.norm(e) for e, p in inner)
+    rep.ob('R08h', fi.key + '/measures-every-sample', ok,
+           'limit_memory_usage must estimate and compare every sample: %s '
+           '-- values of that kind are never charged against '
+           'yaql.memoryQuota' % why, loc=ut.loc(fi.node))
+
+
 def run(repo, rep):
     rep.rule('R08a', 'LIMITED-CONSUMPTION: a parameter whose declared type '
              'admits a one-shot iterator but is not limiting is never '
@@ -633,6 +674,9 @@ def run(repo, rep):
     check_r08e(repo, rep)
     check_r08f(repo, rep, uni)
     check_r08g(repo, rep)
+    rep.rule('R08h', 'QUOTA-MEASURES-EVERYTHING: limit_memory_usage sizes '
+             'and compares every sample; no kind of value is exempt')
+    check_quota_measures_everything(repo, rep)
     rep.count(overloads=len(uni.reg.overloads), limiting_parameters=nlim,
               nonlimiting_iterator_admitting_parameters=nparams,
               lazy_call_sites=nl)
